@@ -123,14 +123,21 @@ def tol_pair(info, eps, extra=1.0):
     return (CTOL * eps * kap * extra * info["scalex"] + 1e-300, CTOL * eps * kap * extra * info["scaleP"] + 1e-300)
 
 
-def psd_check(P: torch.Tensor, tolP: float):
-    """(asymmetry, most negative eigenvalue of the symmetric part) ; ok flags"""
+def sym_defect(P: torch.Tensor):
+    """(asymmetry, most negative eigenvalue of the symmetric part)"""
     Pd = P.double()
     asym = float((Pd - Pd.mT).abs().max()) if Pd.numel() else 0.0
     ev = torch.linalg.eigvalsh((Pd + Pd.mT) / 2)
     lam = float(ev.min()) if ev.numel() else 0.0
+    return asym, lam
+
+
+def psd_check(P: torch.Tensor, tolP: float, carry: float = 0.0):
+    """symmetric positive semidefinite within the rounding tolerance of this call; `carry` is the first-order
+    image of the prior's own (rounding-size) asymmetry / indefiniteness, which the recursion propagates"""
+    asym, lam = sym_defect(P)
     n = P.shape[-1]
-    return asym, lam, (asym <= 2 * tolP and lam >= -2 * n * tolP)
+    return asym, lam, (asym <= 2 * tolP + carry and lam >= -(2 * n * tolP + n * carry))
 
 
 def run_one(ctx: Ctx, c, lines, metas, verbose=False):
@@ -154,7 +161,9 @@ def run_one(ctx: Ctx, c, lines, metas, verbose=False):
     kval = k_value(kspec, n)
     x, P = T(d["x0"]), T(d["P0"])
     mon = common.PurityMonitor()
+    prev_tolP = 0.0
     for j, st in enumerate(d["steps"]):
+        in_asym, in_lam = sym_defect(P)
         Ql = st.get("Q", d["Qc"])
         Rl = st.get("R", d["Rc"])
         u = T(st["u"])
@@ -194,8 +203,10 @@ def run_one(ctx: Ctx, c, lines, metas, verbose=False):
         uinfo = None
         if is_ukf:
             try:
-                uinfo = uf.mp_ukf(fam, kval, st["u"], yl, Ql, Rl, xl, Pl)
-            except (ValueError, ZeroDivisionError):
+                uinfo = uf.np_ukf(uf.NpFam(d["prm"], t_eff), kval, st["u"], yl, Ql, Rl, xl, Pl)
+                if not all(math.isfinite(v) for v in uinfo.values()):
+                    uinfo = None
+            except (np.linalg.LinAlgError, ZeroDivisionError, FloatingPointError):
                 uinfo = None
         centre_ok = (not is_ukf) or kval >= 0
         sig = (c["filter"], n, m, p, c["dtype"], lin, str(kspec) if is_ukf else "-", min(j, 3), c["qr_mode"], c["t_mode"],
@@ -206,6 +217,15 @@ def run_one(ctx: Ctx, c, lines, metas, verbose=False):
         if is_ukf:
             ctx.count(f"ukf.k={kspec}")
         if err is not None:
+            # a prior / predicted covariance that is singular at rounding level (its smallest eigenvalue is below
+            # the tolerance of the call that produced it) has no Cholesky factor in floating point: not a verdict
+            excused = is_ukf and "holesky" in err and (
+                (j > 0 and in_lam <= 4 * n * prev_tolP) or
+                (uinfo is not None and uinfo["lamPm"] <= CTOL * eps * uinfo["dPm"])
+                or (uinfo is None and j > 0))
+            if excused:
+                ctx.count("run.stopped.rounding-singular-prior")
+                break
             # property: for k > -n and SPD inputs a linear UKF/EKF step must return the posterior
             if lin or not is_ukf or centre_ok:
                 ctx.fail(stepcase, f"raises: {c['filter']} raised at call {j} of the run: {err}")
@@ -231,7 +251,8 @@ def run_one(ctx: Ctx, c, lines, metas, verbose=False):
                                    f"|P-P_ref|={dP:.3e} (tol {tolP:.3e}) n,m,p={n},{m},{p} k={kspec} dtype={c['dtype']}")
         # ---- oracle (c): covariance validity
         if centre_ok:
-            asym, lam, ok = psd_check(P2, tolP)
+            carry = ref["gain2"] * (in_asym + max(0.0, -in_lam)) if j > 0 else 0.0
+            asym, lam, ok = psd_check(P2, tolP, carry)
             ctx.count("oracle.psd")
             if not ok:
                 ctx.fail(stepcase, f"psd: {c['filter']} call {j}: covariance asymmetry {asym:.3e}, min eigenvalue {lam:.3e} "
@@ -250,6 +271,7 @@ def run_one(ctx: Ctx, c, lines, metas, verbose=False):
         if j == 0:
             ctx.sample({k2: v for k2, v in c.items()}, cap=8)
         x, P = x2.detach(), P2.detach()
+        prev_tolP = tolP
         if not (bool(torch.isfinite(x).all()) and bool(torch.isfinite(P).all())):
             break
     for mu in mon.mutations:
@@ -260,8 +282,8 @@ def ukf_line(c, d, kval, t_eff, u, y, Q, R, x, P):
     return f"c13.ukf {c['n']} {c['m']} {c['p']} {to_wire(float(kval))} " + uf.step_tokens(d["prm"], t_eff, u, y, Q, R, x, P)
 
 
-def compare_runs(ctx: Ctx, lines, metas, verbose=False):
-    reps = ctx.driver.run(lines)
+def compare_runs(ctx: Ctx, lines, metas, verbose=False, reps=None):
+    reps = ctx.driver.run(lines) if reps is None else reps
     for rep, me in zip(reps, metas):
         st, toks = common.parse_reply(rep)
         case = me["case"]
@@ -354,8 +376,10 @@ def gen_pf(rng: random.Random, stat: bool, quick: bool, force=None):
     c["dtype"] = force.get("dtype", rng.choice(["float64", "float64", "float32"]))
     c["nonlinear"] = force.get("nonlinear", rng.random() < (0.25 if stat else 0.4))
     if stat:
-        c["N"] = force.get("N", rng.choice([1000, 1000, 3000, 10000, 30000, 100000] + ([] if quick else [300000, 1000000])))
-        c["T"] = force.get("T", rng.choice([1, 2, 3]))
+        c["N"] = force.get("N", rng.choice([1000, 1000, 3000, 10000, 30000] + ([] if quick else [100000, 300000, 1000000])))
+        c["T"] = force.get("T", rng.choice([1, 2] if quick else [1, 2, 3]))
+        if c["nonlinear"]:
+            c["N"] = min(c["N"], 30000)
     else:
         c["N"] = force.get("N", rng.choice([1, 2, 3, 5, 8, 17, 40, 100] + ([] if quick else [400])))
         if c["nonlinear"]:
@@ -385,8 +409,15 @@ def materialise_pf(c):
     C0 = np.array(prm["C0"])
     Sobs = C0 @ (n * np.array(d["P0"])) @ C0.T
     base = float(np.trace(Sobs)) / p if p else 1.0
+    if c["nonlinear"]:
+        # spread of the observation over the prior N(x, nP), measured on a sample (the sine terms count)
+        g0 = np.random.default_rng(c["seed"] & 0xFFFFFFFF)
+        S0 = n * np.array(d["P0"])
+        Xs = np.array(d["x0"])[None, :] + g0.standard_normal((2000, n)) @ np.linalg.cholesky((S0 + S0.T) / 2).T
+        gv = uf.NpFam(prm, 0.0).g(Xs, np.zeros(m))
+        base = float(gv.var(axis=0).mean())
     base = base if base > 1e-12 else 1.0
-    d["Rc"] = mk(p, base * rng.choice([0.5, 1.0, 3.0]))
+    d["Rc"] = mk(p, base * rng.choice([1.0, 3.0] if c["nonlinear"] else [0.5, 1.0, 3.0]))
     d["Qdecoy"], d["Rdecoy"] = mk(n, sQ * 3), mk(p, base * 40)
     d["steps"] = [{"u": uf.round_dt(uf.vec_mag(rng, m, [0.0, 0.1, 1.0]), dt),
                    "ydev": [rng.gauss(0, 1) * rng.choice([0.3, 1.0, 1.5]) for _ in range(p)],
@@ -473,9 +504,14 @@ def run_pf_corr(ctx: Ctx, c, lines, metas):
                      + " " + common.wire_list(uf.flat(rec["xp"].double().tolist())) + " " + common.wire_list(r.double().tolist()))
         ly, lye, lR = (a.double() for a in rec["lik_args"])
         le = ly - lye
-        maha = torch.einsum("ij,jk,ik->i", le, torch.linalg.inv(lR), le)
+        lRi = torch.linalg.inv(lR)
+        maha = torch.einsum("ij,jk,ik->i", le, lRi, le)
+        # absolute error of a logit: conditioning of the quadratic form + cancellation in e = y - g(xp)
+        gpre = torch.tensor(uf.NpFam(d["prm"], t_eff).gpre(rec["xp"].double().numpy(), np.array(st["u"])), dtype=torch.float64)
+        epre = gpre.amax(dim=-1) + float(ly.abs().max())
+        dlogit = (le @ lRi).abs().sum(dim=-1) * epre
         metas.append({"case": stepcase, "x": x2.detach().clone(), "P": P2.detach().clone(), "q": rec["q"], "xs": xs, "xr": xr,
-                      "margin": margin, "eps": eps, "scaleP": scaleP, "maha": maha,
+                      "margin": margin, "eps": eps, "scaleP": scaleP, "maha": maha, "dlogit": dlogit,
                       "kappaR": float(torch.linalg.cond(lR))})
         if j == 0:
             ctx.sample(dict(c), cap=10)
@@ -484,8 +520,8 @@ def run_pf_corr(ctx: Ctx, c, lines, metas):
         ctx.fail(dict(c), f"mutation: {mu['function']} changed its argument {mu['argument']}")
 
 
-def compare_pf(ctx: Ctx, lines, metas, verbose=False):
-    reps = ctx.driver.run(lines)
+def compare_pf(ctx: Ctx, lines, metas, verbose=False, reps=None):
+    reps = ctx.driver.run(lines) if reps is None else reps
     for rep, me in zip(reps, metas):
         st, toks = common.parse_reply(rep)
         case = me["case"]
@@ -502,7 +538,8 @@ def compare_pf(ctx: Ctx, lines, metas, verbose=False):
         eps = me["eps"]
         # weights: relative error of w_i is the absolute error of its logit (Mahalanobis form, conditioning of R)
         wt = torch.tensor([float(v) for v in w], dtype=torch.float64)
-        delta = CTOL * eps * me["kappaR"] * (1.0 + me["maha"] / 2 + float(me["maha"].min()) / 2)
+        dl = me["kappaR"] * (1.0 + me["maha"] / 2) + me["dlogit"]
+        delta = CTOL * eps * (dl + float(dl[int(wt.argmax())]))
         tolw = wt * delta + 16 * eps * float(wt.max())
         dwv = (me["q"].double() - wt).abs()
         ctx.hist["pf-corr.weights.maxratio"] = max(ctx.hist.get("pf-corr.weights.maxratio", 0.0), float((dwv / tolw).max()))
@@ -594,6 +631,10 @@ def run_pf_stat(ctx: Ctx, c, verbose=False):
             refcov = None
         else:
             ref, var1, cfac, refvar = is_reference(c, d, fam, st, yl, xl, Pl, N)
+            if cfac > 200:      # the reference itself has collapsed onto a few samples: no verdict from this case
+                ctx.count("pf-stat.skipped-low-ess")
+                x, P = x2.detach(), P2.detach()
+                continue
         ctx.hist["pf-stat.maxN/ESS"] = max(ctx.hist.get("pf-stat.maxN/ESS", 0.0), cfac)
         worst = 0.0
         for i in range(n):
@@ -636,21 +677,13 @@ def is_reference(c, d, fam, st, yl, xl, Pl, N):
     (float64 numpy, own draws); returns (mean, per-sample variance incl. the reference's own error, N/ESS)"""
     n, p = c["n"], c["p"]
     g = np.random.default_rng(st["torch_seed"] ^ 0x5EED)
-    Mref = 400000
+    Mref = 200000
     S0 = n * np.array(Pl)
     Lc = np.linalg.cholesky((S0 + S0.T) / 2)
     X = np.array(xl)[None, :] + g.standard_normal((Mref, n)) @ Lc.T
-    prm = d["prm"]
+    nf = uf.NpFam(d["prm"], float(fam.t))
     u = np.array(st["u"])
-    t = float(fam.t)
-
-    def fam_np(A, B, cc, tv, a, W, Vv, ph, Xs):
-        z = Xs @ np.array(prm[A]).T + (np.array(prm[B]) @ u if len(u) else 0.0) + np.array(prm[cc]) + t * np.array(prm[tv])
-        z = z + np.array(prm[a]) * np.sin(Xs @ np.array(prm[W]).T + (np.array(prm[Vv]) @ u if len(u) else 0.0) + np.array(prm[ph]))
-        return z
-
-    fx = fam_np("A0", "B0", "c1", "tf", "af", "Wf", "Vf", "phf", X)
-    gx = fam_np("C0", "D0", "c2", "tg", "ag", "Wg", "Vg", "phg", X)
+    fx, gx = nf.f(X, u), nf.g(X, u)
     Ri = np.linalg.inv(np.array(d["Rc"]))
     e = np.array(yl)[None, :] - gx
     ll = -0.5 * np.einsum("ij,jk,ik->i", e, Ri, e)
@@ -661,7 +694,8 @@ def is_reference(c, d, fam, st, yl, xl, Pl, N):
     cfac = float(Mref * (w ** 2).sum())
     v_is = Mref * ((w ** 2)[:, None] * dev2).sum(0)
     v_rs = (w[:, None] * dev2).sum(0)
-    # variance of the PF estimate per sample + the reference's own variance expressed per PF sample
+    # variance of the PF estimate per sample (x2 for the uncertainty of this very estimate of it) + the reference's
+    # own variance expressed per PF sample
     var1 = [float((v_is[i] + v_rs[i]) * 2.0 + v_is[i] * N / Mref * 2.0) for i in range(n)]
     return [float(v) for v in mean], var1, cfac, v_rs
 
@@ -670,8 +704,9 @@ def is_reference(c, d, fam, st, yl, xl, Pl, N):
 
 def run(ctx: Ctx):
     rng = ctx.rng
+    torch.set_num_threads(1)      # tiny matrices: thread hand-off costs more than the work
     lines, metas = [], []
-    n_runs = ctx.pick(150, 1600)
+    n_runs = ctx.pick(120, 1600)
     forced = [{"filter": "ekf", "nonlinear": False}, {"filter": "ukf", "nonlinear": False},
               {"filter": "ekf", "nonlinear": True}, {"filter": "ukf", "nonlinear": True},
               {"filter": "ukf", "nonlinear": False, "k": "none"}, {"filter": "ukf", "nonlinear": False, "k": "-n+0.5"},
@@ -680,16 +715,19 @@ def run(ctx: Ctx):
     for i in range(n_runs):
         c = gen_run(rng, ctx.quick, forced[i] if i < len(forced) else None)
         run_one(ctx, c, lines, metas)
-    compare_runs(ctx, lines, metas)
     # PF with recorded draws
-    lines, metas = [], []
+    plines, pmetas = [], []
     for i in range(ctx.pick(40, 400)):
-        run_pf_corr(ctx, gen_pf(rng, False, ctx.quick), lines, metas)
-    compare_pf(ctx, lines, metas)
+        run_pf_corr(ctx, gen_pf(rng, False, ctx.quick), plines, pmetas)
+    # one batch through the model (fans out over processes), heavy PF lines first
+    reps = ctx.driver.run(plines + lines)
+    compare_pf(ctx, plines, pmetas, reps=reps[:len(plines)])
+    compare_runs(ctx, lines, metas, reps=reps[len(plines):])
     # PF statistics
-    forced = [{"N": 1000}, {"N": 10000}, {"N": 100000}, {"N": 1000000, "dtype": "float32", "nonlinear": False, "T": 2},
-              {"N": 1000000, "dtype": "float64", "nonlinear": False, "T": 1}, {"N": 3000, "nonlinear": True}]
-    for i in range(ctx.pick(26, 160)):
+    torch.set_num_threads(4)
+    forced = [{"N": 1000, "nonlinear": False}, {"N": 10000, "nonlinear": False}, {"N": 100000, "nonlinear": False, "T": 1},
+              {"N": 3000, "nonlinear": True}, {"N": 1000000, "dtype": "float64", "nonlinear": False, "T": 1}]
+    for i in range(ctx.pick(14, 160)):
         run_pf_stat(ctx, gen_pf(rng, True, ctx.quick, forced[i] if i < len(forced) else None))
     f32_large(ctx)
 
